@@ -162,6 +162,41 @@ func init() {
 						accepted = append(accepted, name)
 					}
 					ops = append(ops, opRec{"register", name, desc, res})
+				case c == 5 && r.running: // query in the middle of the history (over a fresh connection)
+					conn, err := varlink.NewConnection(ctx, r.addr)
+					if err != nil {
+						return err
+					}
+					qctx, cancel := context.WithTimeout(ctx, 10*time.Second)
+					if g.Bool() {
+						var v, p, ver, u string
+						var ifs []string
+						e := conn.GetInfo(qctx, &v, &p, &ver, &u, &ifs)
+						q := &Line{}
+						q.Bool(e == nil).Str(v).Str(p).Str(ver).Str(u).N(len(ifs))
+						for _, n := range ifs {
+							q.Str(n)
+						}
+						ops = append(ops, opRec{kind: "info", res: q.String()})
+					} else {
+						name := g.Pick(regNamePool)
+						d, e := conn.GetInterfaceDescription(qctx, name)
+						q := &Line{}
+						switch er := e.(type) {
+						case nil:
+							q.S("desc").Str(d)
+						case *varlink.InvalidParameter:
+							q.S("invalid").Str(er.Parameter)
+						default:
+							q.S("err").Str(fmt.Sprintf("%T", e))
+						}
+						ops = append(ops, opRec{kind: "desc", name: name, res: q.String()})
+					}
+					cancel()
+					conn.Close()
+					if !r.waitCounter(int64(len(r.conns))) {
+						return fmt.Errorf("query connection not released")
+					}
 				case c == 5 || c == 6: // listen
 					if !r.serving {
 						if err := r.startListening(ctx); err != nil {
@@ -228,6 +263,9 @@ func init() {
 				if o.kind == "register" {
 					l.Str(o.name).Str(o.desc)
 				}
+				if o.kind == "desc" {
+					l.Str(o.name)
+				}
 			}
 			if err := r.startListening(ctx); err != nil {
 				return err
@@ -251,8 +289,8 @@ func init() {
 			asked = append(asked, "org.varlink.servic", "nope.nope")
 			l.S("|")
 			for _, o := range ops {
-				if o.kind == "register" {
-					l.S(o.res)
+				if o.kind == "register" || o.kind == "info" || o.kind == "desc" {
+					l.S(o.res) // for queries: several tokens
 				}
 			}
 			l.Bool(infoErr == nil).Str(gv).Str(gp).Str(gver).Str(gu).N(len(gi))
